@@ -26,6 +26,8 @@ func init() {
 		ruleCDC5(w, r)
 	})
 	register("C14", "no acknowledged write lost to snapshot/compaction/shutdown", func(w *World, r *Report) {
+		ruleORD1(w, r)
+		ruleORD2(w, r)
 		ruleORD4(w, r)
 		ruleORD5(w, r)
 		ruleORD6(w, r)
@@ -41,5 +43,6 @@ func init() {
 		ruleJRN12(w, r, nil)
 		ruleCDC123(w, r, nil)
 		ruleCDC4(w, r, nil)
+		ruleCDC8(w, r)
 	})
 }
